@@ -683,6 +683,9 @@ PROPS = {
             Run("rawdb", "held", ["--malformed", "--held"], (60, 20), (600, 60), proj_state, ["C13", "panic"], rawdb_features, clean=False),
             Run("vec", "vec-refusals", ["--mode", "refusals"], (84, 40), (400, 80), proj_vec, ["C13", "panic"], vec_features),
             Run("vec", "vec-faults", ["--mode", "faults"], (84, 40), (400, 80), proj_vec, ["C13", "panic"], vec_features),
+            # refused imports (version / format mismatch, corrupted region) of every format over every format: the set of regions,
+            # their extents and lengths must be exactly what they were
+            Run("import", "refused-imports", ["--total-cases", "20"], (20, 0), (20, 0), proj_all, ["C13", "panic"], import_features, clean=False),
         ],
         rule=RAWDB_RULE + "; about one request in four is a refusal chosen from the current state; the 'held' stream ends each case with a removal while an extra handle is alive",
         assumptions=["reference counts are a run-time notion: the model takes `extra handle alive` as an input of remove"],
